@@ -34,6 +34,8 @@ Definition do_uop (v : variant) (now : Z) (o : uop) (w : net) : net * list kc :=
   | UUdpDestroy s => let (w, c) := udp_close cx s w in (set_udp w s (udp_fresh (u_node (get_udp w s)) now), c)
   | UUdpSendTo s bufs dst =>
       let '(err, n, w, c) := udp_send_to cx s bufs dst w in (w, c ++ [ret_line 2 s [err; n]])
+  | UUdpSendBytes s data dst =>
+      let '(err, n, w, c) := udp_send_to cx s [data] dst w in (w, c ++ [ret_line 2 s [err; n]])
   | UUdpRecvFrom s bufs =>
       let (w, c0) := udp_abort_recv s w in
       let '(err, data, from, w) := udp_receive_from cx s bufs w in
